@@ -6,6 +6,7 @@ tmpl=open('/verif/tools/mutprompt.tmpl').read()
 flav={
  'a':'Prefer a defect that needs a PARTICULAR INTERLEAVING of goroutines, a particular thread count, or two cooperating code sites that each look fine alone.',
  'b':'Prefer a defect that needs a FAULT OR ERROR at a particular point (a failing collaborator, an error on the k-th item, end of input / truncation at a particular place, a malformed input nobody writes by hand) or an unusual multi-step sequence of operations.',
+ 'd':'Prefer a defect made of TWO COOPERATING CODE SITES that each look fine alone (for example a helper whose contract is changed slightly and one caller that now relies on the old contract; a default value changed in one place and assumed in another; a buffer size and an index).',
  'c':'Prefer a defect that needs an UNUSUAL INPUT SHAPE or boundary (sizes that straddle an internal buffer, block or channel capacity; ties; empty or one-element cases; a value exactly at a limit) or a multi-step sequence of operations.',
 }
 pid,tag,fl=sys.argv[1:4]
